@@ -118,3 +118,12 @@ func pathSegment(id uint64) string {
 	binary.BigEndian.PutUint64(buf, reversed)
 	return base64.RawURLEncoding.EncodeToString(buf)
 }
+
+// parsePathSegment is the inverse of pathSegment.
+func parsePathSegment(segment string) (id uint64, ok bool) {
+	buf, err := base64.RawURLEncoding.DecodeString(segment)
+	if err != nil || len(buf) != 8 {
+		return 0, false
+	}
+	return math.MaxUint64 - binary.BigEndian.Uint64(buf), true
+}
